@@ -2,7 +2,7 @@
 """Run the whole corpus in parallel: every seeded change must be reported by at least one check, every neutral refactoring
 by none.  Each item gets its own scratch copy of /repo's committed tree (outside /repo and /verif, removed afterwards) with the
 patch applied; the checks are pointed at it with VERIF_REPO, their evidence goes to a scratch directory.  /repo itself is
-never touched.  Usage: tools/battery.py [-j N] [seeded|neutral|all] [id-suffix-filter...]"""
+never touched.  Usage: tools/battery.py [-j N] [-p C01,C04] [seeded|neutral|all] [id-suffix-filter...]   (-p: only these checks, merged into the record)"""
 import json
 import os
 import shutil
@@ -13,6 +13,9 @@ from concurrent.futures import ThreadPoolExecutor
 
 HERE = os.path.dirname(os.path.dirname(os.path.abspath(__file__)))
 PROPS = ["C%02d" % i for i in range(1, 21)]
+
+
+ONLY = []
 
 
 def run_item(base, sid):
@@ -30,10 +33,15 @@ def run_item(base, sid):
         env = dict(os.environ, VERIF_REPO=dst, VERIF_EVIDENCE_DIR=os.path.join(tmp, "ev"))
         res = {}
         # the first check extracts the facts; the others reuse them
-        for p in PROPS:
+        for p in (ONLY or PROPS):
             r = subprocess.run([os.path.join(HERE, "check"), p], stdout=subprocess.PIPE, stderr=subprocess.STDOUT, text=True, env=env)
             keys = [l.strip().split(" at ")[0] for l in r.stdout.splitlines() if l.startswith("  R") or l.startswith("  anchor")]
             res[p] = {"exit": r.returncode, "keys": keys[:6], "fatal": "FATAL" in r.stdout or r.returncode not in (0, 1)}
+        out = os.path.join(HERE, base, sid, "detection.json")
+        if ONLY and os.path.exists(out):
+            old = json.load(open(out)).get("results", {})          # partial run: merge into the recorded results
+            old.update(res)
+            res = old
         fired = sorted(p for p, v in res.items() if v["exit"] != 0)
         json.dump({"seed": sid, "fired": fired, "results": res}, open(os.path.join(HERE, base, sid, "detection.json"), "w"), indent=1)
         return sid, fired, ""
@@ -46,6 +54,9 @@ def main():
     jobs = 5
     if args and args[0] == "-j":
         jobs = int(args[1])
+        args = args[2:]
+    if args and args[0] == "-p":
+        ONLY.extend(args[1].split(","))
         args = args[2:]
     which = args[0] if args else "all"
     filt = args[1:]
